@@ -293,7 +293,12 @@ def c18_part(chk):
                 m["dump_op"] = s.add("dumpbl %x %d" % (DRO, me["n"] * me["sz"])); m["fb_op"] = s.add("fb"); m["fbvalid_after"] = s.add("validfb"); m["hdrs_op"] = s.add("hdrs")
                 s.meta = m
                 cases.append(s)
-    clines, cimpl, couts = run(chk, cases, stream="session-fault")
+    # the k-th device operation of a call is the same operation on both sides only while both issue the same reads: when the
+    # reference runs showed read-pattern drift, the faulted runs are judged by the implementation-side oracle alone
+    drift = chk.drift
+    if drift:
+        chk.notes.append("session-fault: fault positions are device-operation indices; with a drifted read pattern the faulted runs are not compared with the model (oracle only)")
+    clines, cimpl, couts = run(chk, cases, stream="session-fault", with_model=not drift)
     nt, dist = [], {"fault_cases": 0, "in_back_substitution": 0, "failed_reads_or_writes": 0}
     for s, l, raw, out in zip(cases, clines, cimpl, couts):
         if len(out) != len(s.ops):
